@@ -89,4 +89,15 @@ let () =
            Printf.sprintf "vps=%d total=%d ctx_vps=%d" (int_of_z n) (int_of_z tot) (int_of_z n)
            ^ String.concat "" (List.map (fun ths -> Printf.sprintf " | %d/%d" (List.length ths) (List.length ths)) vps))
       | _ -> "<bad case>" end
+    else if String.length line > 6 && String.sub line 0 6 = "cinit " then begin
+      (* the user path under a restricted process cpuset: the core of every thread *)
+      match words line with
+      | [_; nb; sing; cpus] ->
+        let allowed = List.sort_uniq compare (List.map int_of_string (String.split_on_char ',' cpus)) in
+        (match user_flat_bindings (List.map z_of_int allowed) (zi sing) (zi nb) with
+         | None -> "CRASH"
+         | Some cores ->
+           Printf.sprintf "vps=1 total=%d |" (List.length cores)
+           ^ String.concat "" (List.map (fun c -> Printf.sprintf " %d:ok" (int_of_z c)) cores))
+      | _ -> "<bad case>" end
     else "<bad case>")
